@@ -192,6 +192,12 @@ def table_lookup(table, fname, site, config=None):
             ok = ok and ('field', f) in toks
         for c in m.get('consts', []):
             ok = ok and ('const', c) in toks
+        if m.get('params'):
+            sfn = site.get('fn')
+            names = set()
+            if sfn is not None and hasattr(sfn, 'locals'):
+                names = {sfn.locals[tk[1]].get('name') for tk in toks if tk[0] in ('param', 'local') and tk[1] <= sfn.argc}
+            ok = ok and set(m['params']) <= names
         if 'expn' in m:
             ok = ok and site['span'].get('expn') == m['expn']
         if 'snip_contains' in m:
